@@ -112,6 +112,69 @@ def _keeps_ptr(facts, f, v):
     return None
 
 
+def _returns_empty(facts, g, depth=3):
+    """every value g returns is a ReadBuf built with `owned: None` (directly, or by another such function)"""
+    if g is None or depth == 0:
+        return False
+
+    def local_ok(l, seen):
+        ds = g.defs.get(l, [])
+        if not ds or l in seen:
+            return False
+        for loc, kind, payload in ds:
+            if kind == 'assign' and payload['k'] == 'agg' and payload.get('adt') == READBUF:
+                o = payload['ops'][payload['fields'].index('owned')]
+                e = ExprBuilder(g, multi='phi').operand(o)
+                if not (e[0] == 'agg' and e[1].endswith('Option::None')):
+                    return False
+            elif kind == 'assign' and payload['k'] == 'use' and 'l' in payload['op'] and not payload['op']['p']:
+                if not local_ok(payload['op']['l'], seen | {l}):
+                    return False
+            elif kind == 'call':
+                if not _returns_empty(facts, facts.fn_opt(payload.get('resolved') or payload.get('callee') or ''), depth - 1):
+                    return False
+            else:
+                return False
+        # and nothing stores into its `owned` afterwards
+        for loc, s_ in g.assigns():
+            if s_['lhs']['l'] == l and s_['lhs']['p']:
+                return False
+        return True
+    return local_ok(0, frozenset())
+
+
+def _fresh_empty_store(facts, f, loc, e):
+    """`buf.owned = Some(init_buffer(..))` where `buf` is a local ReadBuf that was just built empty: like constructing it
+    with that value"""
+    s = f.at(loc)
+    lhs = s['lhs']
+    if len(lhs['p']) != 1 or lhs["l"] <= f.nargs:
+        return None
+    if not (e[0] == 'agg' and e[1].endswith('Option::Some') and e[3][0][0] == 'call' and e[3][0][1] == INIT_BUFFER):
+        return None
+    others = [l2 for l2, s2 in f.assigns() if s2['lhs']['l'] == lhs['l'] and s2['lhs']['p'] and l2 != loc]
+    if others:
+        return None
+    defs = f.reaching_defs([Loc(0, 0)], loc, lhs['l'])
+    if not defs:
+        return None
+    for d in defs:
+        if not isinstance(d, Loc):
+            return None
+        if d.i < len(f.blocks[d.bb]['stmts']):
+            rv = f.at(d)['rv']
+            if not (rv['k'] == 'agg' and rv.get('adt') == READBUF):
+                return None
+            o = ExprBuilder(f, multi='phi').operand(rv['ops'][rv['fields'].index('owned')])
+            if not (o[0] == 'agg' and o[1].endswith('Option::None')):
+                return None
+        else:
+            t = f.blocks[d.bb]['term']
+            if not (t['k'] == 'call' and _returns_empty(facts, facts.fn_opt(t.get('resolved') or t.get('callee') or ''))):
+                return None
+    return 'Some(init_buffer) stored into a ReadBuf that was just built empty'
+
+
 def r1_owner_pointer(r, facts):
     ws = owned_writers(facts)
     for f, loc, kind, e in ws:
@@ -123,7 +186,7 @@ def r1_owner_pointer(r, facts):
             elif e[0] == 'agg' and e[1].endswith('Option::Some') and e[3][0][0] == 'call' and e[3][0][1] == INIT_BUFFER:
                 desc = 'Some(init_buffer)'
         elif kind == 'store':
-            desc = _keeps_slot(facts, f, e)
+            desc = _keeps_slot(facts, f, e) or _fresh_empty_store(facts, f, loc, e)
         elif kind.startswith('call:'):
             if kind == 'call:std::option::Option::<T>::take' and f.path == RELEASE:
                 desc = 'take() in release'
@@ -242,9 +305,13 @@ def r3_pool_side(r, facts):
     r.floor(5)
 
 
+LOSSLESS = ('std::convert::From::from', 'std::convert::Into::into')
+
+
 def strip_casts(e):
-    while e[0] == 'cast' or (e[0] == 'proj' and e[2] == ('.0',) and e[1][0] == 'bin'):
-        e = e[4] if e[0] == 'cast' else e[1]
+    # (`usize::from(x)` / `x.into()` between integers are value-preserving conversions, like a widening cast)
+    while e[0] == 'cast' or (e[0] == 'proj' and e[2] == ('.0',) and e[1][0] == 'bin') or (e[0] == 'call' and e[1] in LOSSLESS and len(e[2]) == 1):
+        e = e[4] if e[0] == 'cast' else (e[1] if e[0] == 'proj' else e[2][0])
     return e
 
 
